@@ -1,6 +1,7 @@
 //! vharness <prop> gen <seed> <tier> <outfile> [corpus files...]   — generate cases, run the implementation
 //! vharness <prop> replay <file>                                   — re-run the cases of a file, print lines
 mod common;
+mod c12;
 mod c19;
 
 use common::*;
@@ -14,6 +15,7 @@ struct Prop {
 
 fn props() -> Vec<Prop> {
   vec![
+    Prop { id: "C12", exec: c12::exec, gen: c12::gen },
     Prop { id: "C19", exec: c19::exec, gen: c19::gen },
   ]
 }
